@@ -117,6 +117,16 @@ MUTANTS = [
     M('parser:marker:complete-wrong-slot', 'parser', ['C01', 'C02'], 'Marker::complete', 'let idx = self.pos as usize;', 'let idx = (self.pos as usize) + 1;'),
     M('parser:marker:abandon-always-pops', 'parser', ['C01', 'C02'], 'Marker::abandon', 'if idx == p.events.len() - 1 {', 'if idx <= p.events.len() - 1 {'),
     M('parser:marker:precede-wrong-distance', 'parser', ['C01'], 'CompletedMarker::precede', '*forward_parent = Some(new_pos.pos - self.pos);', '*forward_parent = Some(self.pos - new_pos.pos);'),
+    # ---- forward_parent links (Parser::wf carries fp_ok; event::process follows the links)
+    M('parser:marker:precede-absolute-link', 'parser', ['C01'], 'CompletedMarker::precede', '*forward_parent = Some(new_pos.pos - self.pos);', '*forward_parent = Some(new_pos.pos);'),
+    M('parser:stmt:preceded-marker-abandoned', 'parser', ['C01'], 'stmt', '            m.complete(p, EXPR_STMT);\n', '            m.abandon(p);\n'),
+    M('parser:process:chain-off-by-one', 'parser', ['C01'], 'process', 'idx += fwd as usize;', 'idx += fwd as usize; idx += 1;'),
+    M('parser:process:token-count-dropped', 'parser', ['C02'], 'process', 'output.token(kind, n_raw_tokens);', 'output.token(kind, 1);'),
+    M('parser:process:finish-skipped-after-token', 'parser', ['C02'], 'process', 'Event::Finish => output.leave_node(),', 'Event::Finish => { if i % 7 != 6 { output.leave_node() } }'),
+    M('parser:source_file:root-abandoned', 'parser', ['C02'], 'entry::top::source_file', 'm.complete(p, SOURCE_FILE);', 'm.abandon(p);'),
+    M('parser:do_bump:pos-by-one', 'parser', ['C02'], "Parser<'t>::do_bump", 'self.pos += n_raw_tokens as usize;', 'self.pos += 1;'),
+    M('parser:bump_any:empty-token-event', 'parser', ['C02'], "Parser<'t>::bump_any", 'self.do_bump(kind, 1);', 'self.do_bump(kind, 0);'),
+    M('parser:parse:events-not-processed', 'parser', ['C02'], 'TopEntryPoint::parse', 'let res = event::process(events);', 'let res = event::process(Vec::new());'),
     # ---- LEX extents
     M('lex:line_comment:stops-at-space', 'lex', ['C15', 'C14'], "Cursor<'_>::line_comment", "{ c != '\\n' });", "{ c != '\\n' && c != ' ' });"),
     M('lex:eat_identifier:start-test-inverted', 'lex', ['C15'], "Cursor<'_>::eat_identifier", 'if !is_id_start(self.first()) {', 'if is_id_start(self.first()) {'),
